@@ -74,6 +74,17 @@ def post_set_p(rec, result, a, k, old):
                     rec.violation("c09.pvalues", "data_is_not_the_contests_own_sample",
                                   {"contest": c, "assertion": n, "data_size": len(d), "own_sample": own}, case)
                     return
+                # ... and each datum is the overstatement assorter's value for that (manual record, CVR) pair under the
+                # contest's style flag (the pair-level conventions themselves are C03's and C08's subject)
+                with np.errstate(all="ignore"):
+                    indep = [float(asn.overstatement_assorter(mv_, cv_, True)) for mv_, cv_ in zip(mvr, cvr)
+                             if cv_.has_contest(c) and cv_.sample_num <= con.sample_threshold]
+                rec.count("data_values_compared_with_pairwise_overstatement_assorter")
+                if any(not math.isclose(float(x_), y_, rel_tol=1e-12, abs_tol=1e-15) for x_, y_ in zip(d, indep)):
+                    j_ = next(q for q, (x_, y_) in enumerate(zip(d, indep)) if not math.isclose(float(x_), y_, rel_tol=1e-12, abs_tol=1e-15))
+                    rec.violation("c09.pvalues", "datum_is_not_the_overstatement_assorter_of_its_pair",
+                                  {"contest": c, "assertion": n, "position": j_, "datum": float(d[j_]), "pairwise": indep[j_]}, case)
+                    return
             with np.errstate(all="ignore"):
                 try:
                     p, h = clone.test(d)
